@@ -1102,11 +1102,18 @@ struct C08Out {
     w_above_txn_start: bool,
     /// largest (current_version - start_version) of an active transaction at a gc_auto
     max_auto_lag: u64,
+    /// a collection ran while the live relationship / a live node had no properties left although
+    /// an older version had some
+    gc_empty_edge: bool,
+    gc_empty_node: bool,
+    /// ... and an active SI transaction had begun before the removal that emptied it
+    gc_empty_edge_earlier_reader: bool,
+    gc_empty_node_earlier_reader: bool,
 }
 
 /// ops of the C08 domain: the operations for which C07 holds + transactions + GC
 fn c08_domain(op: &HOp) -> bool {
-    !matches!(op, HOp::RemNode { .. } | HOp::RemEdge { .. } | HOp::DelEdge | HOp::DelNode { .. })
+    !matches!(op, HOp::DelEdge | HOp::DelNode { .. })
 }
 
 fn c08_run(ops: &[HOp]) -> Result<C08Out, String> {
@@ -1121,6 +1128,11 @@ fn c08_run(ops: &[HOp]) -> Result<C08Out, String> {
     let mut out = C08Out::default();
     // versions at which something was written or a transaction began (read sampling, long ranges)
     let mut marks: BTreeSet<u64> = BTreeSet::new();
+    // live map empty although an older version had properties: the version at which it became empty
+    let mut edge_had = false;
+    let mut edge_emptied: Option<u64> = None;
+    let mut node_had = [false; 2];
+    let mut node_emptied: [Option<u64>; 2] = [None, None];
     for (i, op) in ops.iter().enumerate() {
         let val = i as i64 + 1;
         let active: Vec<(usize, u64)> = (0..shape.txns.len()).filter(|t| shape.txns[*t]).map(|t| (t, la.txns[t])).collect();
@@ -1142,6 +1154,9 @@ fn c08_run(ops: &[HOp]) -> Result<C08Out, String> {
                 if auto {
                     out.auto += 1;
                     out.auto_with_active |= !active.is_empty();
+                    let earlier = |at: u64| active.iter().any(|(t, _)| tinfo[*t].0 && tinfo[*t].1 < at);
+                    out.gc_empty_edge_earlier_reader |= edge_emptied.map_or(false, earlier);
+                    out.gc_empty_node_earlier_reader |= node_emptied.iter().any(|e| e.map_or(false, earlier));
                     for (t, _) in &active {
                         out.max_auto_lag = out.max_auto_lag.max(a.current_version - tinfo[*t].1);
                     }
@@ -1149,6 +1164,8 @@ fn c08_run(ops: &[HOp]) -> Result<C08Out, String> {
                     out.manual += 1;
                     out.w_above_txn_start |= active.iter().any(|(t, _)| tinfo[*t].1 < w);
                 }
+                out.gc_empty_edge |= edge_emptied.is_some();
+                out.gc_empty_node |= node_emptied.iter().any(|e| e.is_some());
                 wmax = wmax.max(w);
                 gc_seen = true;
             }
@@ -1159,6 +1176,28 @@ fn c08_run(ops: &[HOp]) -> Result<C08Out, String> {
                 let ra = apply_store(&mut a, &mut la, op, val).map_err(|e| format!("step {i} ({op:?}): {e}"))?;
                 let rb = apply_store(&mut b, &mut lb, op, val).map_err(|e| format!("step {i} ({op:?}) on the twin: {e}"))?;
                 marks.insert(a.current_version);
+                if let Some(eid) = la.edge {
+                    if a.get_edge(eid).map_or(true, |e| e.properties.is_empty()) {
+                        if edge_had && edge_emptied.is_none() {
+                            edge_emptied = Some(a.current_version);
+                        }
+                    } else {
+                        edge_had = true;
+                        edge_emptied = None;
+                    }
+                }
+                for sl in 0..2 {
+                    if let Some(nid) = la.node[sl] {
+                        if a.get_node(nid).map_or(true, |n| n.properties.is_empty()) {
+                            if node_had[sl] && node_emptied[sl].is_none() {
+                                node_emptied[sl] = Some(a.current_version);
+                            }
+                        } else {
+                            node_had[sl] = true;
+                            node_emptied[sl] = None;
+                        }
+                    }
+                }
                 if ra != rb {
                     return Err(format!("step {i} ({op:?}) allocated id {ra:?} after GC but {rb:?} without"));
                 }
@@ -1220,12 +1259,23 @@ fn c08_gap_history(gap: u64, leg1: u64, writes: u8, via_commit: bool, txns: u8, 
     if writes & 4 != 0 {
         ops.push(HOp::SetNode { slot: 1, key: 1 });
     }
+    if writes & 8 != 0 {
+        // the relationship's live map ends empty while older versions had properties
+        ops.extend([HOp::RemEdge { key: 0 }, HOp::RemEdge { key: 1 }]);
+    }
+    if writes & 16 != 0 {
+        ops.extend([HOp::RemNode { slot: 0, key: 0 }, HOp::RemNode { slot: 0, key: 1 }]);
+    }
     if gap > leg1 {
         ops.push(HOp::BumpBy { n: gap - leg1, via_commit });
     }
     ops.push(HOp::GcAuto);
     if tail {
-        ops.extend([HOp::SetNode { slot: 0, key: 1 }, HOp::SetEdge { key: 0 }, HOp::Bump, HOp::GcAuto, HOp::Commit { t: 0 }, HOp::GcAuto]);
+        if writes & 8 != 0 {
+            ops.extend([HOp::SetNode { slot: 1, key: 0 }, HOp::Bump, HOp::GcAuto, HOp::Commit { t: 0 }, HOp::GcAuto]);
+        } else {
+            ops.extend([HOp::SetNode { slot: 0, key: 1 }, HOp::SetEdge { key: 0 }, HOp::Bump, HOp::GcAuto, HOp::Commit { t: 0 }, HOp::GcAuto]);
+        }
     }
     ops
 }
@@ -1239,7 +1289,19 @@ fn c08_build(raw: &[(u8, u16)]) -> Vec<HOp> {
         let key = ((sel >> 1) & 1) as u8;
         let flag = (sel >> 2) & 1 == 1;
         let t = pick_idx(sel.wrapping_mul(8191), s.txns.len().max(1)) as u8;
-        let cands: Vec<HOp> = match kind % 20 {
+        // "remove every property" of the relationship / a node: two ops at once
+        if kind % 24 == 22 || kind % 24 == 23 {
+            for k in 0..2u8 {
+                let op = if kind % 24 == 22 { HOp::RemEdge { key: k } } else { HOp::RemNode { slot, key: k } };
+                if s.applicable(&op) {
+                    ops.push(op);
+                }
+            }
+            continue;
+        }
+        let cands: Vec<HOp> = match kind % 24 {
+            20 => vec![HOp::RemEdge { key }, HOp::SetEdge { key }],
+            21 => vec![HOp::RemNode { slot, key }, HOp::SetNode { slot, key }],
             0 => vec![HOp::CreateNode { slot, props: flag }, HOp::SetNode { slot, key }],
             1 | 2 | 3 => vec![HOp::SetNode { slot, key }, HOp::CreateNode { slot, props: flag }],
             4 => vec![HOp::CreateEdge { props: flag }, HOp::CreateNode { slot: 0, props: false }, HOp::CreateNode { slot: 1, props: false }],
@@ -1270,10 +1332,10 @@ fn c08(args: &Args) {
     let mut ev = Evidence::new(
         args,
         "exploration",
-        "version histories over 2 nodes + 1 relationship restricted to the operations for which C07 holds (create, set property, version bump, begin/commit/abort of RC and SI transactions) with gc_versions(w) for every w in 0..=current+1 and gc_auto() inserted at every position (bounded-exhaustive part), plus random histories with several collections. Oracle: on the collecting store every get_node_at_version/get_edge_at_version at versions >= w and every current read is identical immediately before and after the call; for gc_auto additionally every get_node_for_txn/get_edge_for_txn of every active transaction; after every later step the same reads equal those of a twin store that ran the history without collecting. A long-version-gap generator (class long_version_gap) begins SI/RC transactions, advances the version by 1..1100 (grid over 1,2,31-33,63-66,127-129,255-257,1000,1025 plus generated distances; direct jumps and runs of commits) with entity writes early in the gap, then gc_auto(). Over ranges longer than 256 versions the reads are taken at both ends and around every version written or begun at. Non-trivial = the history's collections pruned at least one version; distinct = distinct histories.",
+        "version histories over 2 nodes + 1 relationship (create, set property, remove property - including removal of the last property, so the live map is empty while older versions had properties -, version bump, begin/commit/abort of RC and SI transactions; no deletes) with gc_versions(w) for every w in 0..=current+1 and gc_auto() inserted at every position (bounded-exhaustive part), plus random histories with several collections. Oracle: on the collecting store every get_node_at_version/get_edge_at_version at versions >= w and every current read is identical immediately before and after the call; for gc_auto additionally every get_node_for_txn/get_edge_for_txn of every active transaction; after every later step the same reads equal those of a twin store that ran the history without collecting. A long-version-gap generator (class long_version_gap) begins SI/RC transactions, advances the version by 1..1100 (grid over 1,2,31-33,63-66,127-129,255-257,1000,1025 plus generated distances; direct jumps and runs of commits) with entity writes early in the gap, then gc_auto(). Over ranges longer than 256 versions the reads are taken at both ends and around every version written or begun at. Non-trivial = the history's collections pruned at least one version; distinct = distinct histories.",
     );
     ev.assume("for a hand-picked gc_versions(w), reads below w - including those of a transaction that started below w - may change (the caller chose w); only gc_auto owes active transactions their reads");
-    ev.assume("histories exclude remove-property and delete, which already break versioned reads without GC (C07 known findings)");
+    ev.assume("histories exclude delete_node/delete_edge, which drop an entity's history without GC (C07 known findings); remove-property is included: both oracles are differentials on the collection itself (before/after one call; same history with and without collecting), so they do not depend on C07 holding for removal");
 
     let account = |ev: &mut Evidence, ops: &[HOp], o: &C08Out, tag: &str| {
         ev.class(tag);
@@ -1291,6 +1353,18 @@ fn c08(args: &Args) {
         }
         if o.manual + o.auto > 1 {
             ev.class("several_collections");
+        }
+        if o.gc_empty_edge {
+            ev.class("gc_with_property_less_live_edge");
+        }
+        if o.gc_empty_edge_earlier_reader {
+            ev.class("gc_auto_property_less_live_edge_si_reader_from_before_removal");
+        }
+        if o.gc_empty_node {
+            ev.class("gc_with_property_less_live_node");
+        }
+        if o.gc_empty_node_earlier_reader {
+            ev.class("gc_auto_property_less_live_node_si_reader_from_before_removal");
         }
         if o.max_auto_lag >= 30 {
             ev.class("long_version_gap");
@@ -1354,10 +1428,13 @@ fn c08(args: &Args) {
     // bounded-exhaustive: fixed two-node-one-relationship start, every history of `depth` ops,
     // every insertion point, every watermark 0..=current+1 and gc_auto
     let depth = args.tier.pick(5usize, 6usize);
-    let setup = vec![HOp::CreateNode { slot: 0, props: true }, HOp::CreateNode { slot: 1, props: false }, HOp::CreateEdge { props: true }, HOp::SetEdge { key: 0 }];
+    // node 1 and the relationship carry exactly one property (p), so one remove empties the live map
+    let setup = vec![HOp::CreateNode { slot: 0, props: false }, HOp::SetNode { slot: 0, key: 0 }, HOp::CreateNode { slot: 1, props: false }, HOp::CreateEdge { props: false }, HOp::SetEdge { key: 0 }];
     let alphabet = vec![
         HOp::SetNode { slot: 0, key: 0 },
         HOp::SetEdge { key: 0 },
+        HOp::RemEdge { key: 0 },
+        HOp::RemNode { slot: 0, key: 0 },
         HOp::Bump,
         HOp::Begin { si: true },
         HOp::Begin { si: false },
@@ -1421,7 +1498,7 @@ fn c08(args: &Args) {
         let mut cases: Vec<Vec<HOp>> = Vec::new();
         for &gap in GAPS.iter() {
             for leg1 in [0u64, 1, 2, gap / 2] {
-                for writes in [1u8, 2, 3, 7] {
+                for writes in [1u8, 2, 3, 7, 8, 24, 26] {
                     for via_commit in [false, true] {
                         for txns in 0..5u8 {
                             for pre in [false, true] {
@@ -1433,7 +1510,7 @@ fn c08(args: &Args) {
             }
         }
         let n = args.tier.pick(3000usize, 100_000usize);
-        let strat = (1u64..=1100, 0u64..=1100, 0u8..8, proptest::bool::ANY, 0u8..5, proptest::bool::ANY, proptest::bool::ANY);
+        let strat = (1u64..=1100, 0u64..=1100, 0u8..32, proptest::bool::ANY, 0u8..5, proptest::bool::ANY, proptest::bool::ANY);
         for (gap, leg1, writes, via_commit, txns, pre, tail) in generate(args.seed ^ 0x9a9, n, &strat) {
             cases.push(c08_gap_history(gap, leg1 % (gap + 1), writes, via_commit, txns, pre, tail));
         }
@@ -1452,8 +1529,8 @@ fn c08(args: &Args) {
 
     // random histories from an empty store, several collections each
     if failure.is_none() {
-        let n = args.tier.pick(20_000usize, 3_000_000usize);
-        let strat = proptest::collection::vec((0u8..20, 0u16..=u16::MAX), 3..=16);
+        let n = args.tier.pick(20_000usize, 1_500_000usize);
+        let strat = proptest::collection::vec((0u8..24, 0u16..=u16::MAX), 3..=16);
         for raw in generate(args.seed, n, &strat) {
             let ops = c08_build(&raw);
             ev.case();
